@@ -1,6 +1,7 @@
 use crate::ScopeRef;
 use crate::css::CssString;
 use crate::error::{Error, ResultPos};
+use crate::output::{Format, Style};
 use crate::sass::Value;
 use crate::value::Quotes;
 use std::fmt::Write;
@@ -53,6 +54,15 @@ impl SassString {
     /// All interpolated values are interpolated in the given `scope`.
     pub fn evaluate(&self, scope: ScopeRef) -> Result<CssString, Error> {
         let mut result = String::new();
+        // The text of an interpolated value does not depend on output style.
+        let format = Format {
+            style: if scope.get_format().is_compressed() {
+                Style::Expanded
+            } else {
+                scope.get_format().style
+            },
+            ..scope.get_format()
+        };
         for part in &self.parts {
             match part {
                 StringPart::Interpolation(v) => {
@@ -61,11 +71,11 @@ impl SassString {
                         let v = v
                             .valid_css()
                             .no_pos()? // TODO: Get the position.
-                            .format(scope.get_format())
+                            .format(format)
                             .to_string();
                         result.push_str(&v);
                     } else {
-                        let v = v.format(scope.get_format()).to_string();
+                        let v = v.format(format).to_string();
                         let mut carry_space = false;
                         for c in v.chars() {
                             if carry_space {
